@@ -34,8 +34,6 @@ def floatArith : Arith Float where
   fn f x := match f with
     | .sin => Float.sin x | .cos => Float.cos x | .tan => Float.tan x
     | .exp => Float.exp x | .ln => Float.log x | .sqrt => Float.sqrt x
-  isNeg v := v < 0.0 || (v == 0.0 && 1.0 / v < 0.0)
-  abs := Float.abs
 
 def showF (x : Float) : String := toString x.toBits.toNat
 
@@ -57,7 +55,7 @@ def showDecoded (d : Decoded Float) : String :=
 def showBOp : BOp → String
   | .add => "+" | .sub => "-" | .mul => "*" | .div => "/"
 def showFn : Fn → String
-  | .sin => "sin" | .cos => "cos" | .tan => "tan" | .exp => "EXP" | .ln => "ln" | .sqrt => "sqrt"
+  | .sin => "sin" | .cos => "cos" | .tan => "tan" | .exp => "exp" | .ln => "ln" | .sqrt => "sqrt"
 
 partial def showQE : QE Float → String
   | .num s => s!"(num {s})"
@@ -132,8 +130,8 @@ def step (s : DSt) (line : String) : DSt × String :=
           match (pExpSeg ts : Option (QE Float)) with
           | none => "err"
           | some e =>
-            s!"ok {showQE e} | {" ".intercalate ((flatten floatArith e).map showETok)} | "
-              ++ s!"{optF (evalQ floatArith e)} | {optF (specEvalQ floatArith e)}")
+            s!"ok {showQE e} | {" ".intercalate ((flatten e).map showETok)} | "
+              ++ s!"{optF (evalQ floatArith e)} | {optF (exprValue floatArith noEnv e)}")
   | "print" =>
     (match groups (String.ofList (rest.drop 1)) with
      | [n] :: ops =>
@@ -143,6 +141,26 @@ def step (s : DSt) (line : String) : DSt × String :=
           let okLex := decide (lex txt = some (programToks n ops))
           (s, s!"ok {okLex} {escape txt}")
         | _, _ => (s, "bad-op"))
+     | _ => (s, "bad-op"))
+  | "printm" =>
+    -- printm n | c1 s1 c2 s2 … | line | …   (line: `name p… : q…`  or  `measure : q c i`)
+    (match groups (String.ofList (rest.drop 1)) with
+     | [n] :: cr :: ls =>
+       let rec regs : List String → Option (List (String × Nat))
+         | c :: k :: t => (match k.toNat?, regs t with
+            | some k, some r => some ((c, k) :: r) | _, _ => none)
+         | [] => some []
+         | _ => none
+       let line (g : List String) : Option PLine := match g with
+         | ["measure", ":", q, c, i] => (match q.toNat?, i.toNat? with
+            | some q, some i => some (.meas q c i) | _, _ => none)
+         | _ => (parsePOp g).map .op
+       (match n.toNat?, regs cr, ls.mapM line with
+        | some n, some cregs, some ls =>
+          let txt := printProgramM n cregs ls
+          let okLex := decide (lex txt = some (programToksM n cregs ls))
+          (s, s!"ok {okLex} {escape txt}")
+        | _, _, _ => (s, "bad-op"))
      | _ => (s, "bad-op"))
   | "printdef" =>
     -- printdef name np nq | spelling np loc… | …
